@@ -54,12 +54,18 @@ def run(ctx, rep, tier):
     rep.rule("R4", "committed position changes are followed by model updates for the same cell", 4)
     rep.rule("RC", "reordering evaluates candidates on an up-to-date model; keeps best or restores", 4)
     rep.rule("AP", "shift LP models every pin of the nets it touches", 1)
+    rep.rule("PS", "probes evaluate exactly the positions the placement's own position functions return", 3)
+    rep.rule("SN", "running minima / maxima of the incremental net model start on the neutral side", 2)
     rep.rule("PC", "committed position computed in the state the probe evaluated (before unplace)", 2)
     rep.rule("DF", "snapshotted pin offsets refreshed when orientation changes", 1)
     rep.rule("SR", "optimisation passes never read (stale) coordinates back from the Circuit", 1)
     rep.rule("QF", "incremental wirelength models are built in the placed frame", 4)
     check_moves(ctx, rep)
     check_probes(ctx, rep)
+    from .common import check_sentinels
+    sn = [f_ for f_ in prog.funcs.values() if f_.cls == CQ + "IncrNetModel" and f_.body is not None]
+    if check_sentinels(ctx, rep, "SN", sn) == 0:
+        rep.unknown("SN", None, None, "running extrema of IncrNetModel", "none recognised (shape changed)")
     check_sync(ctx, rep)
     check_reordering(ctx, rep)
     check_allpins(ctx, rep)
@@ -99,6 +105,8 @@ def check_moves(ctx, rep):
                 ok, why = c02.move_under_feasible_witness(ctx, f, x, val_q)
                 if ok:
                     rep.holds("MV", x, f, "%s in %s" % (q.split("::")[-1], f.short), why)
+                elif ok is None:
+                    rep.unknown("MV", x, f, "%s in %s" % (q.split("::")[-1], f.short), why)
                 else:
                     rep.violation("MV", x, f, "%s in %s" % (q.split("::")[-1], f.short), why, key="%s|move without feasibility witness" % f.short)
     for q in ("DetailedPlacer::bestSwap", "DetailedPlacer::bestInsert", "DetailedPlacer::bestSwapUpdate"):
@@ -107,7 +115,8 @@ def check_moves(ctx, rep):
         # bestValue: initialised from value(), never assigned a larger value (here: never assigned)
         best = [x for x in walk(f.body) if x.get("kind") == "VarDecl" and children(x) and canon(children(x)[-1]) == ("call", CQ + "DetailedPlacer::value", ("this",))]
         if len(best) != 1:
-            rep.unknown("G8", f.decl, f, "reference value", "variable initialised from value() not found")
+            if not _g8_object_form(ctx, rep, f):
+                rep.unknown("G8", f.decl, f, "reference value", "variable initialised from value() not found")
             continue
         bv = ("var", best[0].get("id"), best[0].get("name"))
         reass = assignments_to(f, bv[1])
@@ -144,6 +153,86 @@ def check_moves(ctx, rep):
             else:
                 rep.violation("G8", x, f, "candidate accepted without comparing its value with the value at entry", "",
                               key="%s|acceptance without comparison" % f.short)
+
+
+def _g8_object_form(ctx, rep, f):
+    """The search state bundled in a small local object: `Sel sel{value()};` stores the value at entry in a field R that is never
+    written again, a member function sets the acceptance flag only under `val < R` with val the second component of a pair
+    parameter, and every call of it on the object passes the result of a value function."""
+    prog = ctx.prog
+    vq = CQ + "DetailedPlacer::value"
+    objs = []
+    for x in walk(f.body):
+        if x.get("kind") == "VarDecl" and children(x):
+            ic = canon(children(x)[-1])
+            args = [a for a in ic[1:] if isinstance(a, tuple)] if ic[0] in ("initlist", "construct") else []
+            pos = [i for i, a in enumerate(args) if a == ("call", vq, ("this",))]
+            if pos:
+                objs.append((x, ic, pos[0] - (1 if ic[0] == "construct" and args and args[0][0] not in ("call", "lit", "var") else 0)))
+    if len(objs) != 1:
+        return False
+    d, ic, _pos = objs[0]
+    t = (qt(d) or "").replace("const ", "").strip()
+    recs = [q for q in prog.records if q.split("::")[-1] == t.split("::")[-1]]
+    if len(recs) != 1:
+        return False
+    rq = recs[0]
+    fields = list(prog.records[rq]["fields"])
+    ll = [n for n in fields if "long" in qt(prog.records[rq]["fields"][n])]
+    if len(ll) != 1:
+        return False
+    refq = rq + "::" + ll[0]
+    obj = ("var", d.get("id"), d.get("name"))
+    # the reference value is never written again
+    from .common import field_writes
+    ws = [w for w in field_writes(ctx, refq) if w[0].kind != "CXXConstructorDecl"]
+    if ws:
+        rep.unknown("G8", ws[0][1], f, "reference value %s" % ll[0], "written after construction in %s: monotonicity not analysed" % ws[0][0].short)
+        return True
+    setters = []
+    for h in prog.all_funcs(with_lambdas=False):
+        if h.cls != rq or h.body is None:
+            continue
+        for x in walk(h.body):
+            if x.get("kind") == "BinaryOperator" and x.get("opcode") == "=":
+                l, r = children(x)
+                lc = canon(l)
+                if lc[0] == "field" and lc[2] == ("this",) and canon(r) == ("lit", True):
+                    setters.append((h, x, lc[1].split("::")[-1]))
+    if not setters:
+        return False
+    ref = ("field", refq, ("this",))
+    for h, x, wname in setters:
+        hg = cfg_of(h)
+        ok, bad, pidx = False, None, None
+        for ast, val, _e in hg.dom_edges(hg.node_for(x)):
+            c = canon(ast)
+            if c[0] == "bin" and c[1] in ("<", "<=", ">", ">="):
+                for a, b, op in ((c[2], c[3], c[1]), (c[3], c[2], {"<": ">", ">": "<", "<=": ">=", ">=": "<="}[c[1]])):
+                    if b == ref and a[0] == "var":
+                        bs = binding_source(h, a[1])
+                        if bs and bs[1] == 1 and bs[0][0] == "var":
+                            pidx = [i for i, p_ in enumerate(h.params) if p_.get("id") == bs[0][1]] or None
+                            if (op in ("<", "<=") and val is True) or (op in (">", ">=") and val is False):
+                                ok = True
+                            else:
+                                bad = c
+        what = "`%s = true` in %s" % (wname, h.short)
+        if bad is not None and not ok:
+            rep.violation("G8", x, h, "candidate accepted under %s" % pretty(bad), "the comparison admits candidates that are worse than the current value",
+                          key="%s|acceptance comparison reversed" % f.short)
+            continue
+        if not ok or not pidx:
+            rep.unknown("G8", x, h, what, "not under a comparison of the evaluated value with the value at entry (%s)" % ll[0])
+            continue
+        calls = [y for y in walk(f.body) if y.get("kind") == "CXXMemberCallExpr" and ctx.eff.resolve_callee(y)[1] == [h]
+                 and callee_info(y)["obj"] is not None and canon(callee_info(y)["obj"]) == obj]
+        vals = (CQ + "DetailedPlacer::valueOnSwap", CQ + "DetailedPlacer::valueOnInsert")
+        if calls and all(canon(callee_info(y)["args"][pidx[0]])[0] == "call" and canon(callee_info(y)["args"][pidx[0]])[1] in vals for y in calls):
+            rep.holds("G8", x, f, "%s only under val < %s (value at entry), %d evaluation(s) passed in" % (what, ll[0], len(calls)))
+        else:
+            rep.unknown("G8", x, f, what, "the evaluated pair does not come from valueOnSwap / valueOnInsert at every call")
+    return True
 
 
 def walk_found_sets(f):
@@ -196,6 +285,43 @@ def check_probes(ctx, rep):
             after = g.reachable_from([rn]) - {rn.idx}
             if any(g.node_for(x).idx in after for x, _p in lst if x is not rx):
                 problems.append("cell %s moved again after the restore" % pretty(cell))
+        # PS: the probed positions are the ones the move will commit: every non-restoring update takes its position from the
+        # placement's own position function (positionsOnSwap / positionOnInsert), through a variable with no other definition
+        olds_all = set()
+        for cell, lst in by_cell.items():
+            for x, p in lst:
+                if p[0] == "var":
+                    d = f.unit.by_id.get(p[1])
+                    init = canon(children(d)[-1]) if d is not None and d.get("kind") == "VarDecl" and children(d) else None
+                    if init is not None and init[0] == "call" and init[1] == CQ + "DetailedPlacement::cellPos":
+                        olds_all.add(p[1])
+        for cell, lst in by_cell.items():
+            for x, p in lst:
+                if p[0] == "var" and p[1] in olds_all:
+                    continue
+                src = None
+                if p[0] == "var":
+                    bs = binding_source(f, p[1])
+                    d = f.unit.by_id.get(p[1])
+                    if bs:
+                        src = bs[0]
+                    elif d is not None and d.get("kind") == "VarDecl" and children(d):
+                        src = canon(children(d)[-1])
+                    redefs = assignments_to(f, p[1])
+                    tied = [y for y in walk(f.body) if y.get("kind") == "CallExpr" and callee_info(y)["name"] == "tie" and
+                            any(canon(a_) == p for a_ in callee_info(y)["args"])]
+                    if redefs or tied:
+                        src = ("several definitions",)
+                elif p[0] == "call":
+                    src = p
+                what = "%s probes %s at %s" % (q.split("::")[-1], pretty(cell), pretty(p))
+                if src is not None and src[0] == "call" and src[1] in (CQ + "DetailedPlacement::positionsOnSwap", CQ + "DetailedPlacement::positionOnInsert"):
+                    rep.holds("PS", x, f, what, "the position %s returns, as the commit uses it" % short(src[1]))
+                elif src is not None and src[0] in ("var", "several definitions", "field", "call", "construct"):
+                    rep.violation("PS", x, f, what, "the probed position is %s, not (only) what positionsOnSwap / positionOnInsert return: the move is "
+                                  "evaluated at one position and committed at another" % pretty(src)[:60], key="%s|probe position differs from the commit" % f.short)
+                else:
+                    rep.unknown("PS", x, f, what, "origin of the probed position not recognised")
         # no other mutation of placement_
         s = ctx.eff.summary(f)
         muts = [u for qf, lst in s["writes"].items() if qf == CQ + "DetailedPlacer::placement_" for _x, u in lst]
